@@ -456,6 +456,13 @@ theorem sub_graph_failure_rejects_parent (im : Impl) (ord : Ord) (hv : ord.Valid
       · rename_i oc; exact hg oc rfl
       · exact compileN_kid_fails _ _ _ _ _ _ h hchild
 
+/-- `Decl.first` is the first element of `Decl.compiles`: what a parent sees of a sub-graph is
+    what the first Compile of that graph would answer -/
+theorem first_is_first_compile (E : Env) (d : Decl) (co : COpts) :
+    d.compiles E [co] = [Decl.first E d co] := by
+  cases d
+  simp [Decl.compiles, Decl.compilesX, compilesFrom, Decl.first]
+
 /-- Go compiles the sub-graph nodes in map order; accept / reject does not depend on it -/
 theorem sub_graph_order_free (ord : Ord) (b : Builder) (o : COpts) (kids kids' : List Outcome)
     (hp : kids.Perm kids') :
